@@ -158,6 +158,10 @@ def Env.set (e : Env) (c : Comp) (v : AttrVal) : Env :=
   | .header, .hdr n x => { e with headers := setHeader e.headers n x }
   | _, _ => e
 
+/-- the attributes a request_st reaches through r->con (the same for every stream of the
+    connection): listening socket and peer address; all request-level fields empty -/
+def Env.connLevel (e : Env) : Env := { socket := e.socket, addr := e.addr, ipStr := e.ipStr }
+
 /-- the buffer `l` config_check_cond_nocache_eval() compares
     (NULL and empty buffers are both compared as "") -/
 def attr (nd : Node) (e : Env) : Bytes :=
@@ -353,7 +357,7 @@ inductive Op where
   | setValid (s : Nat) (valid : List Comp)         -- r->conditional_is_valid = …
   | newReq (s : Nat) (sets : List (Comp × AttrVal)) (valid : List Comp)
       -- next request on the connection: new attributes, then http_response_config()'s full reset
-  | spawn                                          -- h2_init_stream(): copy state of request 0
+  | spawn                                          -- h2_init_stream(): new request_st, cache + valid bits of request 0
   | patch (s : Nat) (dirs : List Nat)              -- a module's patch_config()
 
 /-- what an operation lets the caller observe -/
@@ -395,9 +399,12 @@ def step (always : Bool) (t : Tree) (st : List Req) : Op → List Req × Obs
     | some rq =>
       (st.set s { env := applySets rq.env sets, valid := validOf v, cache := Cache.empty t.length }, .none)
   | .spawn =>
+    -- h2_init_stream(): conditional_is_valid and cond_cache are copied from the
+    -- connection's request; the stream's own request attributes are still empty, only
+    -- what it reaches through r->con (socket, peer address) is shared
     match st[0]? with
     | none => (st, .none)
-    | some rq => (st ++ [rq], .none)
+    | some rq => (st ++ [{ rq with env := rq.env.connLevel }], .none)
   | .patch s dirs =>
     match st[s]? with
     | none => (st, .none)
